@@ -155,6 +155,107 @@ class Correct(Harness):
         return cl
 
 
+class CorrectAfterQR(Harness):
+    """sqrt_correct for larger measurement dimensions, modular: `casadi.qr` is cut (it records its argument and returns a
+    fresh orthogonal-factor placeholder and a fresh upper-triangular factor).  Decided for every such factor with a
+    non-zero diagonal: the returned Ss and W+ are the lower-triangular blocks of the transposed factor, W+ is lower
+    triangular, and the gain solves K Ss = (lower-left block) - i.e. K = P H^T Ss^-T Ss^-1 = P H^T S^-1 once the QR
+    identities (proved without the cut for the small dimensions) hold.  Also: the matrix handed to qr is
+    [[Rs, H W], [0, W]]^T."""
+    timeout_ms = 60000
+    max_cells = 4
+    sample_on_spurious = True
+
+    def __init__(self, nx, ny):
+        self.nx, self.ny = nx, ny
+        self.name = f"C10:sqrt_correct:after_qr:nx{nx}:ny{ny}"
+
+    def build(self):
+        import casadi
+        nx, ny = self.nx, self.ny
+        n = nx + ny
+        W = lower_syms("W", nx)
+        Rs = lower_syms("Rs", ny)
+        H = ca.SX.sym("H", ny, nx)
+        Rf = ca.SX.sym("Rf", ca.Sparsity.upper(n))
+        Qf = ca.SX.sym("Qf", n, n)
+        rec = []
+        o_qr = casadi.qr
+
+        def qr(A):
+            rec.append(ca.SX(A))
+            return Qf, Rf
+        casadi.qr = qr
+        try:
+            Wp, K, Ss = util().sqrt_correct(Rs, H, W)
+        finally:
+            casadi.qr = o_qr
+        if len(rec) != 1:
+            raise HarnessError(f"sqrt_correct called qr {len(rec)} times")
+        if Wp.shape != (nx, nx) or K.shape != (nx, ny) or Ss.shape != (ny, ny):
+            raise HarnessError("sqrt_correct returned matrices of unexpected shapes")
+        if ca.depends_on(ca.vertcat(ca.vec(ca.SX(Wp)), ca.vec(ca.SX(K)), ca.vec(ca.SX(Ss))), ca.vec(Qf)):
+            raise HarnessError("sqrt_correct uses the orthogonal factor")
+        return ca.Function("after_qr", [Rf, Rs, H, W], [ca.SX(Wp), ca.SX(K), ca.SX(Ss), ca.SX(rec[0]), ca.densify(Rf)])
+
+    def build_real(self):
+        # replay: the real function with the real qr; the factor input is ignored
+        nx, ny = self.nx, self.ny
+        n = nx + ny
+        W = lower_syms("W", nx)
+        Rs = lower_syms("Rs", ny)
+        H = ca.SX.sym("H", ny, nx)
+        Rf = ca.SX.sym("Rf", ca.Sparsity.upper(n))
+        Wp, K, Ss = util().sqrt_correct(Rs, H, W)
+        B = ca.blockcat(Rs, ca.mtimes(H, W), ca.SX.zeros(nx, ny), W)
+        R_real = ca.qr(ca.sparsify(B).T)[1]  # the factor the real function works with
+        return ca.Function("after_qr_real", [Rf, Rs, H, W], [ca.SX(Wp), ca.SX(K), ca.SX(Ss), ca.SX(B.T), ca.densify(R_real)])
+
+    def make_ctx(self):
+        ctx = Ctx()
+        nx, ny = self.nx, self.ny
+        n = nx + ny
+        # upper-triangular factor, column-major non-zeros: column j holds rows 0..j
+        U = [[Val(0)] * n for _ in range(n)]
+        un = []
+        for j in range(n):
+            for i in range(j + 1):
+                v = Val.var(f"U{i}_{j}")
+                U[i][j] = v
+                un.append(v)
+        for i in range(n):
+            ctx.assume(V.ne(U[i][i], 0))
+        wn, WM = lower_vals("W", nx)
+        rn, RM = lower_vals("R", ny)
+        Hv = [[Val.var(f"H{i}{j}") for j in range(nx)] for i in range(ny)]
+        for i in range(nx):
+            ctx.assume(V.ne(WM[i][i], 0))
+        for i in range(ny):
+            ctx.assume(V.ne(RM[i][i], 0))
+        ctx.aux = dict(U=U, W=WM, Rs=RM, H=Hv)
+        return ctx, [un, rn, V.vec(Hv), wn]
+
+    def claims(self, outs, ins, aux):
+        Wp, K, Ss, A, Rf = outs
+        nx, ny = self.nx, self.ny
+        L = V.mat_T(Rf)  # B_R = R^T, lower triangular (the factor as the function sees it: replayable on the real qr)
+        cl = []
+        for i in range(ny):
+            for j in range(ny):
+                cl.append(Claim(f"Ss=block[{i},{j}]", Ss[i][j], L[i][j]))
+        for i in range(nx):
+            for j in range(nx):
+                cl.append(Claim(f"Wp=block[{i},{j}]", Wp[i][j], L[ny + i][ny + j]))
+        X = [[L[ny + i][j] for j in range(ny)] for i in range(nx)]
+        cl += entry_claims("K*Ss=block", V.mat_mul(K, Ss), X)
+        # the matrix handed to qr: B^T with B = [[Rs, H W], [0, W]]
+        HW = V.mat_mul(aux["H"], aux["W"])
+        B = [[(aux["Rs"][i][j] if j < ny else HW[i][j - ny]) for j in range(nx + ny)] for i in range(ny)] + \
+            [[(Val(0) if j < ny else aux["W"][i][j - ny]) for j in range(nx + ny)] for i in range(nx)]
+        cl += entry_claims("qr_argument=B^T", A, V.mat_T(B))
+        return cl
+
+
 class Factor(Harness):
     timeout_ms = 60000
 
@@ -301,6 +402,10 @@ def all_harnesses(tier):
     # two coupled measurement channels: innovation factor, gain and triangular shape (the W+ W+^T identity has one
     # entry that is not decided within the time caps and is left out for this configuration)
     hs.append(Correct(2, 2, skip_wp=True))
+    # larger measurement dimensions (the estimators use n_y <= 2; the statement quantifies over a range): everything
+    # sqrt_correct does after the QR factorisation, for every triangular factor
+    for nx, ny in ((2, 3), (3, 3), (6, 3)) if tier == "quick" else ((2, 3), (3, 3), (6, 3), (6, 4), (4, 6)):
+        hs.append(CorrectAfterQR(nx, ny))
 
     for n in (range(1, 5) if tier == "quick" else range(1, 7)):
         hs.append(Factor("ldl", n))
